@@ -19,6 +19,7 @@ from __future__ import annotations
 import itertools
 import json
 import re
+import ast
 import math
 from pathlib import Path
 from typing import Any
@@ -373,6 +374,23 @@ def witness_class(args: tuple[Any, ...], aliased: bool, ra: Any, rb: Any) -> str
         return "float-rounding"
     if str(ra[0]).startswith("['ok', ['iterator") or str(rb[0]).startswith("['ok', ['iterator"):
         return "iterator-result"
+    # two different results that an ordering cannot tell apart (equal, or equal under the usual keys len / abs) are a TIE;
+    # anything else is a plain wrong value
+    def scalar(enc: Any) -> Any:
+        try:
+            kind, val = enc[1][0], enc[1][1]
+            if kind in ("int", "float", "bool", "str", "bytes") and isinstance(val, str) and val != "nan":
+                return ast.literal_eval(val)
+        except Exception:  # noqa: BLE001
+            pass
+        return None
+
+    va, vb = scalar(ra[0]), scalar(rb[0])
+    if va is not None and vb is not None:
+        if isinstance(va, (str, bytes)) and isinstance(vb, (str, bytes)):
+            return "ties" if len(va) == len(vb) else "other"
+        if not isinstance(va, (str, bytes)) and not isinstance(vb, (str, bytes)):
+            return "ties" if va == vb or abs(va) == abs(vb) else "other"
     return "ties-or-other"
 
 
